@@ -23,7 +23,13 @@ for l in full:
     else:
         out.append(l)
 missing = [k for k in new if k not in seen]
-assert not missing, missing
+assert all(k[0] == 'seed' for k in missing), missing   # seeds stored after the full run: appended to their section
+if missing:
+    at = next(i for i, l in enumerate(out) if l.startswith('== reverse patches'))
+    out[at:at] = [new[k] for k in missing]
+    first = next(i for i, l in enumerate(out) if l.startswith('== seeded changes')) + 1
+    nat = lambda l: [int(t) if t.isdigit() else t for t in re.split(r'(\d+)', l.split()[0])]
+    out[first:at + len(missing)] = sorted(out[first:at + len(missing)], key=nat)
 bad = [l for l in out if key(l) and not (('clean' == key(l)[0] and 'exit=0 violations=0' in l) or ('seed' == key(l)[0] and ' exit=1 ' in l) or ('mutant' == key(l)[0] and 'suite_exit=0 check_exit=1 ' in l))]
 out.insert(1, '== lines of %s refreshed by a partial run after the checks of these properties were changed' % ' '.join(sorted({k[1][:3] for k in new if k[0] != "mutant"})))
 out.append('== overall: %s' % ('PASS' if not bad else 'FAIL'))
